@@ -2,6 +2,7 @@
    decidable equality and an arbitrary injective [hash] (Section hypotheses keqb_spec, hash_inj). *)
 From Coq Require Import List Bool Arith String Lia.
 From Splinkv Require Import Model.Cache.
+From Splinkv Require Model.EntryPoints.     (* read-only: route_priority, the ad-hoc term-frequency route *)
 Import ListNotations.
 Open Scope string_scope.
 Open Scope list_scope.
@@ -616,7 +617,8 @@ Section Proofs.
   Definition regs_ok (regs : list handle) : Prop := Forall cbs_hashed regs.
 
   Definition plain (i : instr) : Prop :=
-    match i with IChangeInput _ | ISecondLinker _ _ _ | ISetDebug _ | IInvalidateKeepResults => False | _ => True end.
+    match i with IChangeInput _ | ISecondLinker _ _ _ | ISetDebug _ | IInvalidateKeepResults | IRegisterTFOverwrite _ _ | ISetLeaf _ _ => False
+    | _ => True end.
 
   Lemma regs_ok_app regs h : regs_ok regs -> cbs_hashed h -> regs_ok (regs ++ [h]).
   Proof. intros. apply Forall_app. split; auto. Qed.
@@ -1792,6 +1794,163 @@ Section Proofs.
     destruct (aget (st_cache K s) (PH templ (hash tree (st_uid K s)))) eqn:E; auto.
     pose proof (db_fallback_unreachable inputs ver tfcols params uid luid fx ops Hp Hok _ _ E) as F. fold s in F. cbv zeta in F.
     rewrite F. reflexivity.
+  Qed.
+  (* ================================================================ compare_two_records: the ad-hoc tf route *)
+  (* where the term frequency of a NEW record's value comes from (_join_new_table_to_df_concat_with_tf_sql), by
+     EntryPoints.route_priority: the cached tf table (registered lookup or computed) has priority over select distinct
+     from the cached __splink__df_concat_with_tf, which has priority over NULL; records carry no tf column here *)
+  Definition route_prov (s : state) (c : string) : list prov :=
+    match EntryPoints.route_priority false (amem (st_cache K s) (named (tfname c))) (amem (st_cache K s) (named CWTF)) with
+    | EntryPoints.RRegistered => [tf_spec s c]
+    | EntryPoints.RDistinct => [derive NODESTF 0 [cwtf_spec s]]
+    | _ => []
+    end.
+  Definition c2_name (flag : bool) : string := if flag then FBBR else PREDICT.
+  Definition c2_spec (s : state) (flag : bool) : prov :=
+    derive (c2_name flag) (st_params K s)
+           ([PRecords (st_ctr K s); PRecords (S (st_ctr K s))] ++ flat_map (route_prov s) (st_tfcols K s)).
+
+  Definition route_tree (s : state) (c : string) : list sqlt :=
+    match aget (st_cache K s) (named (tfname c)) with
+    | Some h => [h_src K h]
+    | None => match aget (st_cache K s) (named CWTF) with
+              | Some h => [Cte NODESTF 0 [h_src K h]]
+              | None => []
+              end
+    end.
+
+  Lemma resolve_routes s regs cols :
+    r_trees (fold_right (fun x acc => r_app (resolve K keqb s regs x) acc) r_nil (map RTfRoute cols)) = flat_map (route_tree s) cols.
+  Proof.
+    induction cols as [|c r IH]; cbn; auto. rewrite IH. f_equal. unfold route_tree.
+    destruct (aget (st_cache K s) (named (tfname c))); auto. destruct (aget (st_cache K s) (named CWTF)); auto.
+  Qed.
+
+  Lemma route_tree_ok s c :
+    InvS s -> NamedOK s ->
+    map (denote (st_db K s)) (route_tree s c) = route_prov s c /\
+    forallb (amem (st_db K s)) (flat_map (direct_refs (st_uid K s)) (route_tree s c)) = true.
+  Proof.
+    intros I N. unfold route_tree, route_prov, EntryPoints.route_priority.
+    destruct (aget (st_cache K s) (named (tfname c))) eqn:E.
+    - assert (A : amem (st_cache K s) (named (tfname c)) = true) by (unfold Cache.amem; rewrite E; reflexivity).
+      rewrite A. pose proof (tf_tree_ok True s c I N) as [Hd Hr]. unfold tf_tree in Hd, Hr. rewrite E in Hd, Hr.
+      cbn [map flat_map]. rewrite Hd, app_nil_r. auto.
+    - assert (A : amem (st_cache K s) (named (tfname c)) = false) by (unfold Cache.amem; rewrite E; reflexivity).
+      rewrite A. destruct (aget (st_cache K s) (named CWTF)) eqn:E2.
+      + assert (A2 : amem (st_cache K s) (named CWTF) = true) by (unfold Cache.amem; rewrite E2; reflexivity).
+        rewrite A2. destruct (nk_cwtf _ _ N _ E2) as (v & (t & a & b & d & e & f & g) & Hv). rewrite (Hv Logic.I) in g.
+        rewrite a. cbn [map flat_map Cache.denote Cache.direct_refs app forallb]. fold (denote (st_db K s)).
+        rewrite g, b, <- d, f. auto.
+      + assert (A2 : amem (st_cache K s) (named CWTF) = false) by (unfold Cache.amem; rewrite E2; reflexivity).
+        rewrite A2. auto.
+  Qed.
+
+  Lemma route_prov_frame s s' :
+    NamedOK s -> InvS s ->
+    (forall l, aget (st_cache K s') (PL l) = aget (st_cache K s) (PL l)) -> leaves_stable s s' ->
+    st_inputs K s' = st_inputs K s -> st_tfcols K s' = st_tfcols K s ->
+    forall c, route_prov s' c = route_prov s c.
+  Proof.
+    intros N I Hc Hx Hi Ht c.
+    pose proof (concat_spec_frame s s' I Hx Hi) as C.
+    pose proof (lookup_of_frame True s s' N Hc Hx) as L.
+    pose proof (cwtf_spec_frame s s' C L Ht) as W.
+    unfold route_prov, Cache.amem, Cache.named. rewrite !Hc, W. unfold tf_spec. rewrite L, C. reflexivity.
+  Qed.
+
+  Lemma flat_map_flat_map {A B C} (g : B -> list C) (h : A -> list B) l :
+    flat_map g (flat_map h l) = flat_map (fun x => flat_map g (h x)) l.
+  Proof. induction l; cbn; auto. rewrite flat_map_app. congruence. Qed.
+  Lemma map_flat_map {A B C} (f : B -> C) (h : A -> list B) l : map f (flat_map h l) = flat_map (fun x => map f (h x)) l.
+  Proof. induction l; cbn; auto. rewrite map_app. congruence. Qed.
+
+  Lemma step_iexec s regs tr n p ins mids uc :
+    step_instr K keqb hash (s, regs, tr) (IExec n p ins mids uc) =
+    (let r := resolve_all K keqb s regs ins in
+     let '(s1, h, ev) := exec_pipeline K keqb hash s n (the_tree n p r) (r_aliases r) (r_inline r ++ mids) uc in
+     (s1, regs ++ [h], tr ++ r_events r ++ ev)).
+  Proof. reflexivity. Qed.
+
+  Theorem compare_two_correct s flag : Inv2 s -> result_prov K keqb hash s (CompareTwo flag) = c2_spec s flag.
+  Proof.
+    intros (I & Hs & N). unfold result_prov, run_op, run_prog.
+    set (mids := ["__splink__compare_two_records_left_with_tf"; "__splink__compare_two_records_right_with_tf";
+                  "__splink__compare_two_records_left_with_tf_uid_fix"; "__splink__compare_two_records_right_with_tf_uid_fix";
+                  "__splink__compare_two_records_blocked"; CVV; MWP] ++ (if flag then [PREDICT] else [])).
+    change (prog_of_op K s (CompareTwo flag)) with
+      [IRegisterRecords C2L; IRegisterRecords C2R;
+       IExec (c2_name flag) (st_params K s) ([RReg 0; RReg 1; RCwtfHitOnly] ++ map RTfRoute (st_tfcols K s)) mids false].
+    cbn [fold_left].
+    (* the two registrations *)
+    pose proof (step_instr_inv s [] [] (IRegisterRecords C2L) Logic.I I Hs (Forall_nil _)) as A1.
+    pose proof (step_instr_named s [] [] (IRegisterRecords C2L) Logic.I Logic.I I Hs N (Forall_nil _)) as B1.
+    destruct (step_instr K keqb hash (s, [], []) (IRegisterRecords C2L)) as [[s1 regs1] tr1] eqn:E1.
+    cbn in E1. inversion E1; subst s1 regs1 tr1. clear E1. cbn [fst snd app] in A1, B1.
+    match goal with |- context [step_instr K keqb hash (?X, [?H], []) (IRegisterRecords C2R)] =>
+      set (s1 := X) in *; set (h0 := H) in * end.
+    destruct A1 as (I1 & S1 & R1 & _).
+    pose proof (step_instr_inv s1 [h0] [] (IRegisterRecords C2R) Logic.I I1 S1 R1) as A2.
+    pose proof (step_instr_named s1 [h0] [] (IRegisterRecords C2R) Logic.I Logic.I I1 S1 B1 R1) as B2.
+    destruct (step_instr K keqb hash (s1, [h0], []) (IRegisterRecords C2R)) as [[s2 regs2] tr2] eqn:E2.
+    cbn in E2. inversion E2; subst s2 regs2 tr2. clear E2. cbn [fst snd app] in A2, B2.
+    match goal with |- context [step_instr K keqb hash (?X, [h0; ?H], []) (IExec _ _ _ _ _)] =>
+      set (s2 := X) in *; set (h1 := H) in * end.
+    destruct A2 as (I2 & S2 & R2 & _).
+    (* the pipeline *)
+    set (T := Cte (c2_name flag) (st_params K s) ([Leaf (LUid C2L (st_ctr K s)); Leaf (LUid C2R (S (st_ctr K s)))] ++ flat_map (route_tree s2) (st_tfcols K s))).
+    assert (ET : the_tree (c2_name flag) (st_params K s)
+                   (resolve_all K keqb s2 [h0; h1] ([RReg 0; RReg 1; RCwtfHitOnly] ++ map RTfRoute (st_tfcols K s))) = T).
+    { unfold the_tree, resolve_all, T. cbn [app fold_right]. unfold resolve at 1 2 3. cbn [nth_error].
+      destruct (aget (st_cache K s2) (named CWTF)); cbn [r_app r_trees r_nil app h_src]; rewrite resolve_routes; reflexivity. }
+    assert (Hstab : leaves_stable s s2).
+    { intros l Hm. unfold s2, s1. cbn. rewrite !aget_aset_other; auto; intros X; inversion X; subst;
+        apply (iv_fresh _ I) in Hm; lia. }
+    assert (Hcache : forall l, aget (st_cache K s2) (PL l) = aget (st_cache K s) (PL l)) by (intros l; reflexivity).
+    assert (Hroutes : forall c, route_prov s2 c = route_prov s c).
+    { apply route_prov_frame; auto. }
+    assert (Hready : forallb (amem (st_db K s2)) (direct_refs (st_uid K s2) T) = true).
+    { unfold T. cbn [Cache.direct_refs flat_map app forallb].
+      assert (M1 : amem (st_db K s2) (PL (LUid C2L (st_ctr K s))) = true).
+      { unfold s2, s1. cbn. rewrite !amem_aset. rewrite (pname_eqb_refl (PL (LUid C2L (st_ctr K s)))). apply orb_true_r. }
+      assert (M2 : amem (st_db K s2) (PL (LUid C2R (S (st_ctr K s)))) = true).
+      { unfold s2. cbn. rewrite amem_aset, pname_eqb_refl. reflexivity. }
+      rewrite M1, M2. cbn [andb]. rewrite flat_map_flat_map.
+      rewrite forallb_flat_map. apply forallb_forall. intros c _. apply (route_tree_ok s2 c I2 B2). }
+    pose proof (exec_run_spec s2 (c2_name flag) T I2 S2 eq_refl) as (_ & _ & _ & _ & _ & Hsrc & Hphys & _ & Hrun).
+    destruct (Hrun Hready) as (_ & Hcontent & _).
+    rewrite step_iexec. cbv zeta. rewrite ET.
+    unfold exec_pipeline. rewrite (iv_nodebug _ I2).
+    destruct (exec_run K keqb hash s2 (c2_name flag) T) as [[s3 h2] ev] eqn:E3. cbn [fst snd] in *.
+    cbn [app nth_error]. rewrite Hcontent.
+    (* denotation of the tree *)
+    assert (Hl : same_leaves (st_db K s2) (st_db K s3)).
+    { pose proof (exec_run_spec s2 (c2_name flag) T I2 S2 eq_refl) as (_ & _ & _ & _ & (G & _) & _). rewrite E3 in G. exact G. }
+    rewrite <- (denote_same_leaves _ _ T Hl).
+    unfold T, c2_spec. cbn [Cache.denote map]. fold (denote (st_db K s2)). rewrite map_app. cbn [map Cache.denote].
+    assert (C1 : content (st_db K s2) (PL (LUid C2L (st_ctr K s))) = PRecords (st_ctr K s)).
+    { unfold s2, s1, Cache.content. cbn. rewrite aget_aset_other by (intros X; inversion X; lia). rewrite aget_aset_same. reflexivity. }
+    assert (C2 : content (st_db K s2) (PL (LUid C2R (S (st_ctr K s)))) = PRecords (S (st_ctr K s))).
+    { unfold s2, Cache.content. cbn. rewrite aget_aset_same. reflexivity. }
+    rewrite C1, C2. f_equal. cbn [app]. f_equal. f_equal.
+    rewrite map_flat_map.
+    apply flat_map_ext. intros c. destruct (route_tree_ok s2 c I2 B2) as [Hd _]. rewrite Hd. apply Hroutes.
+  Qed.
+
+  (* a cached tf table (e.g. a registered lookup) has priority: the cached concat_with_tf plays no role for that column *)
+  Lemma registered_has_priority s c :
+    amem (st_cache K s) (named (tfname c)) = true -> route_prov s c = [tf_spec s c].
+  Proof. intros H. unfold route_prov. rewrite H. reflexivity. Qed.
+  (* when every tf column has a cached tf table, compare_two_records does not depend on whether
+     __splink__df_concat_with_tf happens to be cached (i.e. on whether predict / EM / clustering ran before) *)
+  Lemma c2_spec_all_registered s flag :
+    (forall c, In c (st_tfcols K s) -> amem (st_cache K s) (named (tfname c)) = true) ->
+    c2_spec s flag = derive (c2_name flag) (st_params K s)
+                            ([PRecords (st_ctr K s); PRecords (S (st_ctr K s))] ++ map (tf_spec s) (st_tfcols K s)).
+  Proof.
+    intros H. unfold c2_spec. f_equal. f_equal.
+    induction (st_tfcols K s) as [|c r IH]; cbn; auto.
+    rewrite (registered_has_priority s c) by (apply H; cbn; auto). cbn. f_equal. apply IH. intros c' Hin. apply H. cbn. auto.
   Qed.
 End Proofs.
 
